@@ -354,7 +354,8 @@ def probe_strategy(tier):
         if kind == "bitfield":
             return {"kind": kind, "case": draw(c08.strat_free("quick"))}
         steps = draw(st.lists(st.fixed_dictionaries({
-            "op": st.sampled_from(["new", "update", "enter", "exit"]),
+            "op": st.sampled_from(["new", "update", "enter", "exit", "work",
+                                   "work"]),
             "args": st.dictionaries(st.sampled_from(["x", "y", "p",
                                                      "app_id"]),
                                     st.integers(0, 3), max_size=3)}),
@@ -545,15 +546,41 @@ def controller_probe(spec):
                 stack.append(c)
             elif s["op"] == "exit" and stack:
                 stack.pop().__exit__(None, None, None)
+            elif s["op"] == "work":
+                # the earlier controllers are not only configured but used
+                _controller_work(mc, len(s.get("args", {})))
         from rig.machine_control.bmp_controller import BMPController
         last = w.controller()
         bmp = BMPController("bmp")
         n0 = len(m.log)
         last.read(0x60000000, 4, x=1, y=1)
-        wire = [[e["x"], e["y"], e["p"], e["cmd"]] for e in m.log[n0:]]
+        for k in range(3):
+            _controller_work(last, k)
+        wire = [[e["x"], e["y"], e["p"], e["cmd"], e["arg1"], e["arg2"],
+                 e["arg3"], len(e["data"])] for e in m.log[n0:]]
         return ["controller", sorted(last.get_context_arguments().items()),
                 sorted(bmp.get_context_arguments().items()), wire,
                 sorted(k.decode() for k in last.structs)]
+
+
+def _controller_work(mc, k):
+    """A little real work through a controller (what it sends is part of the
+    probe's result when done on the last controller)."""
+    import tempfile
+    from rig.machine_control.scp_connection import SCPError
+    try:
+        if k % 3 == 0:
+            with tempfile.NamedTemporaryFile(suffix=".aplx") as f:
+                f.write(bytes(range(32)))
+                f.flush()
+                mc.flood_fill_aplx(f.name, {(0, 0): {1, 2}, (1, 1): {3}},
+                                   app_id=30)
+        elif k % 3 == 1:
+            mc.sdram_alloc(16, tag=2, x=1, y=0, app_id=31)
+        else:
+            mc.get_chip_info(0, 1)
+    except SCPError:
+        pass                      # what was sent is the datum
 
 
 # ------------------------------------- a machine description edited in place
